@@ -371,6 +371,15 @@ func genWraps() {
 		}
 		byProp[parts[0]] = append(byProp[parts[0]], parts[1])
 	}
+	// packages whose wrap sites are a Coq obligation (a new site there is a hard failure, whatever sampling says):
+	// those where the property is about arithmetic at sizes no sampler reaches (the MD4 bit counter).  Everywhere
+	// else a changed set of wrap sites is handled by stage T of the check (re-validation against the baseline).
+	hard := map[string]bool{}
+	if hf, err := os.ReadFile(filepath.Join(filepath.Dir(listPath), "hard_wraps.txt")); err == nil {
+		for _, l := range strings.Fields(string(hf)) {
+			hard[l] = true
+		}
+	}
 	cache := map[string][]string{}
 	var sb, txt strings.Builder
 	sb.WriteString("(* Generated by go2coq from /repo on every run: do not edit. *)\nFrom Coq Require Import List String.\nImport ListNotations.\nOpen Scope string_scope.\n\n")
@@ -385,12 +394,15 @@ func genWraps() {
 			}
 			for _, s := range sh {
 				line := d + ": " + s
+				fmt.Fprintf(&txt, "%s %s\n", p, line)
+				if !hard[d] {
+					continue
+				}
 				if !first {
 					sb.WriteString(";\n")
 				}
 				first = false
 				sb.WriteString("  " + coqStr(line))
-				fmt.Fprintf(&txt, "%s %s\n", p, line)
 			}
 		}
 		sb.WriteString("\n].\n\n")
